@@ -404,6 +404,34 @@ macro_rules! conv_vec { ($s:expr, $V:ident, $n:expr) => {{
       drop(e);
       if let Some(f) = tok::faults().into_iter().next() { s.violation(&site, "ledger-fault", json!({"iterator_length": len, "what": f})); }
       let st = tok::states(); if st.iter().any(|x| *x != St::Dropped) { s.violation(&site, "element-leaked", json!({"iterator_length": len})); } }
+    // from_iter through `by_ref()` for every source length 0..N+3: the conversion takes exactly the elements it stores - what it
+    // did not store is still in the source, in order, alive (an element pulled and then dropped was transferred zero times)
+    for len in 0..=N + 3 { let site = format!("FromIterator for {} (source kept by the caller: by_ref)", name); s.eval(len > N);
+      tok::reset(); let src: Vec<Tok> = (0..len).map(|_| Tok::new()).collect();
+      let mut it = src.into_iter();
+      let v: $V<Tok> = it.by_ref().collect();
+      let early: Vec<u32> = tok::dropped_ids().into_iter().filter(|&d| (d as usize) < len).collect();
+      if !early.is_empty() { s.violation(&site, "source-element-consumed-but-not-stored", json!({"source_length": len, "lanes": N, "dropped_during_collect": early})); }
+      let rest: Vec<Tok> = it.collect();
+      let want_rest: Vec<u32> = (N.min(len)..len).map(|i| i as u32).collect();
+      if ids(&rest) != want_rest { s.violation(&site, "source-not-left-at-the-first-element-that-was-not-stored", json!({"source_length": len, "lanes": N, "rest_of_source": ids(&rest), "want": want_rest})); }
+      let e = v.into_elems(); let got = ids(&e);
+      for i in 0..N.min(len) { if got[i] != i as u32 { s.violation(&site, "wrong-order", json!({"source_length": len, "got": got})); break; } }
+      drop(e); drop(rest);
+      if let Some(f) = tok::faults().into_iter().next() { s.violation(&site, "ledger-fault", json!({"source_length": len, "what": f})); }
+      let st = tok::states(); if st.iter().any(|x| *x != St::Dropped) { s.violation(&site, "element-leaked", json!({"source_length": len})); } }
+    // one long source split into consecutive vectors through by_ref: the concatenation of what was stored is the source, in order
+    { let site = format!("FromIterator for {} (one source split into three vectors)", name); s.eval(true);
+      tok::reset(); let total = 2 * N + 1; let src: Vec<Tok> = (0..total).map(|_| Tok::new()).collect();
+      let mut it = src.into_iter();
+      let a: $V<Tok> = it.by_ref().collect(); let b: $V<Tok> = it.by_ref().collect(); let c: $V<Tok> = it.by_ref().collect();
+      let mut got: Vec<u32> = Vec::new(); let (ea, eb, ec) = (a.into_elems(), b.into_elems(), c.into_elems());
+      got.extend(ids(&ea)); got.extend(ids(&eb)); got.push(ec[0].id);
+      if got != (0..total as u32).collect::<Vec<_>>() { s.violation(&site, "source-element-consumed-but-not-stored", json!({"source_length": total, "lanes": N, "stored_in_order": got})); }
+      if it.next().is_some() { s.violation(&site, "source-not-left-at-the-first-element-that-was-not-stored", json!({"source_length": total})); }
+      drop((ea, eb, ec));
+      if let Some(f) = tok::faults().into_iter().next() { s.violation(&site, "ledger-fault", json!({"what": f})); }
+      let st = tok::states(); if st.iter().any(|x| *x != St::Dropped) { s.violation(&site, "element-leaked", json!({})); } }
     // map and zip move each element once
     { let site = format!("{}::map", name); s.eval(true);
       let v = <$V<Tok> as VecN<Tok>>::from_elems(fresh(N)); let m = v.map(|t| (t, 0u8)); no_drops_yet(s, &site);
